@@ -1,9 +1,9 @@
 SPECIFICATION Spec
 CONSTANTS
-  E = 5
+  E = 4
   KMin = 1
   KMax = 3
-  TES = {0,2,3,5,6,8}
+  TES = {0,2,3,6}
   TShift = 1
   NTgtMin = 2
   NTgtMax = 3
